@@ -110,3 +110,104 @@ Example c19_render_example :
   map tkind (render 0 e3) = [TkIdent; TkMinus; TkIdent; TkMinus; TkIdent] /\
   expression (st 20 [] false (render 0 e1 ++ [mktoken TkSemicolon ";"])) = Ok e1 (st 20 [] false [mktoken TkSemicolon ";"]).
 Proof. vm_compute. repeat split; try reflexivity; try discriminate; auto. Qed.
+
+(* ---- parser part, TYPE expressions (coq/Parse/ParserTypes.v): template lists and the split of `>>`, `>=`, `>>=`.
+   `rend t ts c`: the tokens ts followed by c adjacent template closers render the type t (names, name<T>, array<T>,
+   array<T, n> with n any rendering of an additive expression, ptr<space, T[, access]>, nested without bound; trailing
+   commas where the parser takes them).  `closers c cs`: cs cuts c adjacent closers into tokens, each `>` or `>>`, in any
+   way; `closers_eq c cs`: the same when `=` follows, the last token being `=`, `>=` or `>>=`. *)
+Require Import Naga.Parse.ParserTypes.
+
+(* every rendering of t, whatever the spelling of its adjacent closers, is parsed by typeSpec to exactly t and leaves
+   exactly the tokens that follow (any tokens; after a bare name: anything but `<`) *)
+Theorem c19_type_rendering_parses_to_its_type : forall N er inf t ts c cs rest,
+  rend t ts c -> closers c cs -> (c = 0%nat -> tk_eqb (hd_kind rest) TkLess = false) ->
+  (List.length (ts ++ cs ++ rest) <= N)%nat ->
+  typeSpec (st N er inf (ts ++ cs ++ rest)) = Ok t (st N er inf rest).
+Proof. exact typeSpec_rend. Qed.
+Print Assumptions c19_type_rendering_parses_to_its_type.
+
+(* ... and when `=` follows: `T> =`, `T>=`, `T>> =`, `T> >=`, `T>>=` all give t and leave an `=` as the current token *)
+Theorem c19_type_rendering_before_equal : forall N er inf t ts c cs rest,
+  rend t ts c -> closers_eq c cs -> (List.length (ts ++ cs ++ rest) <= N)%nat ->
+  exists e, tkind e = TkEqual /\ typeSpec (st N er inf (ts ++ cs ++ rest)) = Ok t (st N er inf (e :: rest)).
+Proof. exact typeSpec_rend_eq. Qed.
+Print Assumptions c19_type_rendering_before_equal.
+
+(* the fuel-indexed statement behind both: `cl c l l'` = c successive template closes (one `>` CHARACTER each) turn the
+   token list l into l'; enough fuel = the number of tokens (n for the recursion, N for the loops); the nesting depth of
+   the type is at most that *)
+Theorem c19_type_rendering_enough_fuel : forall N er inf t ts c, rend t ts c -> forall n l l',
+  cl c l l' -> (c = 0%nat -> tk_eqb (hd_kind l) TkLess = false) ->
+  (List.length (ts ++ l) <= n)%nat -> (List.length (ts ++ l) <= N)%nat ->
+  pT n (st N er inf (ts ++ l)) = Ok t (st N er inf l').
+Proof. exact parse_rend. Qed.
+Print Assumptions c19_type_rendering_enough_fuel.
+
+Theorem c19_type_depth_at_most_tokens : forall t ts c, rend t ts c -> (tdepth t <= List.length ts)%nat.
+Proof. exact rend_depth. Qed.
+Print Assumptions c19_type_depth_at_most_tokens.
+
+(* cutting c adjacent closers into `>` / `>>` tokens in any way is c successive closes *)
+Theorem c19_any_cut_of_closers_closes : forall c cs, closers c cs -> forall rest, cl c (cs ++ rest) rest.
+Proof. exact closers_cl. Qed.
+Print Assumptions c19_any_cut_of_closers_closes.
+
+(* declaration contexts: `: T = e` after the name in `var` / `override` (var_tail) and `let` / `const` (let_tail),
+   every spelling of the closers and of the `=` (separate, `>=`, `>>=`), every rendering of the initialiser *)
+Theorem c19_var_type_and_initialiser : forall N er inf colon t ts c cs e te rest,
+  tkind colon = TkColon -> rend t ts c -> closers_eq c cs -> prints 0 e te -> follow 0 rest ->
+  (List.length (colon :: ts ++ cs ++ te ++ rest) <= N)%nat ->
+  var_tail (st N er inf (colon :: ts ++ cs ++ te ++ rest)) = Ok (Some t, Some e) (st N er inf rest).
+Proof. exact var_tail_rend. Qed.
+Print Assumptions c19_var_type_and_initialiser.
+
+Theorem c19_let_type_and_initialiser : forall N er inf colon t ts c cs e te rest,
+  tkind colon = TkColon -> rend t ts c -> closers_eq c cs -> prints 0 e te -> follow 0 rest ->
+  (List.length (colon :: ts ++ cs ++ te ++ rest) <= N)%nat ->
+  let_tail (st N er inf (colon :: ts ++ cs ++ te ++ rest)) = Ok (Some t, e) (st N er inf rest).
+Proof. exact let_tail_rend. Qed.
+Print Assumptions c19_let_type_and_initialiser.
+
+(* var_tail / let_tail are what varDecl_rest / constDecl_rest run after the name *)
+Theorem c19_let_tail_is_constDecl : forall ek isc s,
+  constDecl_rest ek isc s =
+  bind (take TkIdent ek) (fun name => bind let_tail (fun ti => bind expect_semicolon (fun _ =>
+    ret (mkconst (tlex name) (fst ti) (snd ti) isc)))) s.
+Proof. exact constDecl_rest_tail. Qed.
+Print Assumptions c19_let_tail_is_constDecl.
+
+(* non-vacuity: `: ptr<function, array<vec2<f32>, 4>>= &v;` - the array count is followed by `>>=`; the spellings
+   `>>=`, `> >=`, `>> =`, `> > =` all parse to the same declaration tail *)
+Example c19_type_example :
+  let k := fun kd s => mktoken kd s in
+  let lt := k TkLess "<" in let cm := k TkComma "," in let gt := k TkGreater ">" in
+  let inner := [k TkVec2 "vec2"; lt; k TkF32 "f32"] in
+  let arr := k TkArray "array" :: lt :: inner ++ [gt] ++ cm :: [k TkIntLiteral "4"] in
+  let ts := k TkPtr "ptr" :: lt :: k TkIdent "function" :: cm :: arr in
+  let t := TyPtr "function" (TyArray (TyNamed "vec2" [TyNamed "f32" []]) (Some (ELit TkIntLiteral "4"))) "" in
+  let e := EUnary TkAmpersand (EIdent "v") in
+  let te := [k TkAmpersand "&"; k TkIdent "v"] in
+  let semi := [k TkSemicolon ";"] in
+  rend t ts 2 /\
+  closers_eq 2 ([] ++ [k TkGreaterGreaterEqual ">>="]) /\ closers_eq 2 ([gt] ++ [k TkGreaterEqual ">="]) /\
+  closers_eq 2 ([k TkGreaterGreater ">>"] ++ [k TkEqual "="]) /\ closers_eq 2 ([gt; gt] ++ [k TkEqual "="]) /\
+  let_tail (st 40 [] false (k TkColon ":" :: ts ++ [k TkGreaterGreaterEqual ">>="] ++ te ++ semi)) = Ok (Some t, e) (st 40 [] false semi) /\
+  let_tail (st 40 [] false (k TkColon ":" :: ts ++ [gt; k TkGreaterEqual ">="] ++ te ++ semi)) = Ok (Some t, e) (st 40 [] false semi) /\
+  let_tail (st 40 [] false (k TkColon ":" :: ts ++ [gt; gt; k TkEqual "="] ++ te ++ semi)) = Ok (Some t, e) (st 40 [] false semi).
+Proof.
+  cbv zeta. repeat split; try (vm_compute; reflexivity).
+  - apply (R_ptr (mktoken TkPtr "ptr") (mktoken TkLess "<") (mktoken TkIdent "function") (mktoken TkComma ",")
+             (TyArray (TyNamed "vec2" [TyNamed "f32" []]) (Some (ELit TkIntLiteral "4")))); try reflexivity.
+    apply (R_array_n (mktoken TkArray "array") (mktoken TkLess "<") (TyNamed "vec2" [TyNamed "f32" []])
+             [mktoken TkVec2 "vec2"; mktoken TkLess "<"; mktoken TkF32 "f32"] 1 [mktoken TkGreater ">"] (mktoken TkComma ",")
+             (ELit TkIntLiteral "4") [mktoken TkIntLiteral "4"]); try reflexivity.
+    + apply (R_param (mktoken TkVec2 "vec2") (mktoken TkLess "<") (TyNamed "f32" []) [mktoken TkF32 "f32"] 0); try reflexivity.
+      apply (R_named (mktoken TkF32 "f32")). reflexivity.
+    + apply C_one; [reflexivity|apply C_nil].
+    + apply (prints_lit (mktoken TkIntLiteral "4") 8); [reflexivity|repeat constructor].
+  - apply CE_gge; [apply C_nil|reflexivity].
+  - apply CE_ge; [apply C_one; [reflexivity|apply C_nil]|reflexivity].
+  - apply CE_sep; [apply C_two; [reflexivity|apply C_nil]|reflexivity].
+  - apply CE_sep; [apply C_one; [reflexivity|apply C_one; [reflexivity|apply C_nil]]|reflexivity].
+Qed.
